@@ -290,8 +290,8 @@ def run_failure(args):
             wd.advance(0.3)
         before = snapshot(wd)
         if fault == 'missing-file':
-            wd.cfg._text = False
-            wd.cfg._configurations[:] = ['/nonexistent/verif/exabgp.conf']
+            wd.config_is_text(False)
+            wd._config_sources()[:] = ['/nonexistent/verif/exabgp.conf']
         else:
             lines = (config(new, norib=True, extra=SECOND) if norib else config(new, extra=SECOND) if second else config(new)).split('\n')
             body_idx = [i for i, l in enumerate(lines) if l.strip()]
@@ -347,7 +347,7 @@ def run_failure(args):
                     viols.append((f'failed-reload-leaked-routes:{fault}', f'after a failed reload ({fault}, line {line_idx}) the peer received routes of the refused file: {extra}'))
         # a good file after the refused one must be applied like any other reload
         if session == 'up':
-            wd.cfg._text = True
+            wd.config_is_text(True)
             after_good = old if second else new
             wd.set_config(config(after_good))
             wd.signal('RELOAD')
